@@ -13,6 +13,7 @@ package hsrv
  */
 
 import (
+	"syscall"
 	"bufio"
 	"bytes"
 	"context"
@@ -570,6 +571,34 @@ func runHsrvCase(t *testing.T, c map[string]any, tmp string) map[string]any {
 			} else {
 				ar["error"] = err.Error()
 			}
+		case "fdstorm": /* many silent callers at once while the process is short of file descriptors: accept(2) fails with EMFILE for a while */
+			var lim, old syscall.Rlimit
+			syscall.Getrlimit(syscall.RLIMIT_NOFILE, &old)
+			ents, _ := os.ReadDir("/proc/self/fd")
+			lim = old
+			lim.Cur = uint64(len(ents) + int(vnum(am["spare"], 30)))
+			if lim.Cur < old.Cur {
+				syscall.Setrlimit(syscall.RLIMIT_NOFILE, &lim)
+			}
+			var held []net.Conn
+			fails := 0
+			for k := 0; k < 200 && fails < 20; k++ {
+				nc, err := net.DialTimeout("tcp", addr, 300*time.Millisecond)
+				if nil != err {
+					fails++
+					time.Sleep(5 * time.Millisecond)
+					continue
+				}
+				held = append(held, nc)
+			}
+			time.Sleep(300 * time.Millisecond)
+			for _, nc := range held {
+				nc.Close()
+			}
+			syscall.Setrlimit(syscall.RLIMIT_NOFILE, &old)
+			ar["held"] = len(held)
+			ar["dial_failures"] = fails
+			time.Sleep(1500 * time.Millisecond) /* net/http retries a failing accept after at most a second */
 		case "rmroot": /* the directory files are served from disappears while the server is up (unmounted, cleaned away) */
 			os.RemoveAll(root)
 		case "tmpl": /* edit / remove the template file */
